@@ -125,6 +125,37 @@ def genLock (cfg : Cfg) (s : State) (startTS : Nat) (keys : List Key) : State :=
 def phaseAfterSuccess (lk : Lock) : Phase :=
   if lk.acquiredCount + 1 < lk.requiredSlots.length then .acquiring else .acquired
 
+/-- one iteration of `Latches.recycle`; also the body of the recycling at the head of `acquireSlot` -/
+def recycleSlot (cfg : Cfg) (s : State) (i : Nat) (ts : Nat) : State :=
+  { s with slots := upd s.slots i ((s.slots i).recycle cfg ts) }
+
+/-- head of `acquireSlot`: `if latch.count >= latchListCount { latch.recycle(lock.startTS) }` -/
+def preRecycle (cfg : Cfg) (s : State) (slotID : Nat) (startTS : Nat) : State :=
+  if (s.slots slotID).count ≥ cfg.listCount then recycleSlot cfg s slotID startTS else s
+
+/-- rest of `acquireSlot` (same critical section): look the key up, take it / report stale / queue up -/
+def acquireCore (s : State) (l : LockId) (lk : Lock) (key : Key) (slotID : Nat) : State × AcqRes :=
+  let sl := s.slots slotID
+  match findNode sl.queue key with
+  | none =>
+    let sl' := { sl with queue := { key := key, maxCommitTS := 0, holder := some l, pubs := [] } :: sl.queue,
+                         count := sl.count + 1 }
+    let lk' := { lk with acquiredCount := lk.acquiredCount + 1, phase := phaseAfterSuccess lk }
+    ({ s with slots := upd s.slots slotID sl', locks := upd s.locks l (some lk') }, .success)
+  | some n =>
+    if n.maxCommitTS > lk.startTS then
+      let lk' := { lk with isStale := true, phase := .acquired }
+      ({ s with locks := upd s.locks l (some lk') }, .stale)
+    else match n.holder with
+      | none =>
+        let sl' := { sl with queue := updNode key (fun n => { n with holder := some l }) sl.queue }
+        let lk' := { lk with acquiredCount := lk.acquiredCount + 1, phase := phaseAfterSuccess lk }
+        ({ s with slots := upd s.slots slotID sl', locks := upd s.locks l (some lk') }, .success)
+      | some _ =>
+        let sl' := { sl with waiting := sl.waiting ++ [l] }
+        let lk' := { lk with phase := .waiting }
+        ({ s with slots := upd s.slots slotID sl', locks := upd s.locks l (some lk') }, .locked)
+
 /-- the critical section `acquireSlot`; `none` = the Go code would panic / the call is not legal in this phase -/
 def acquireSlot (cfg : Cfg) (s : State) (l : LockId) : Option (State × AcqRes) :=
   match s.locks l with
@@ -132,28 +163,7 @@ def acquireSlot (cfg : Cfg) (s : State) (l : LockId) : Option (State × AcqRes) 
   | some lk =>
     if lk.phase ≠ .acquiring ∧ lk.phase ≠ .woken then none else
     match lk.keys[lk.acquiredCount]?, lk.requiredSlots[lk.acquiredCount]? with
-    | some key, some slotID =>
-      let sl0 := s.slots slotID
-      let sl := if sl0.count ≥ cfg.listCount then sl0.recycle cfg lk.startTS else sl0
-      match findNode sl.queue key with
-      | none =>
-        let sl' := { sl with queue := { key := key, maxCommitTS := 0, holder := some l, pubs := [] } :: sl.queue,
-                             count := sl.count + 1 }
-        let lk' := { lk with acquiredCount := lk.acquiredCount + 1, phase := phaseAfterSuccess lk }
-        some ({ s with slots := upd s.slots slotID sl', locks := upd s.locks l (some lk') }, .success)
-      | some n =>
-        if n.maxCommitTS > lk.startTS then
-          let lk' := { lk with isStale := true, phase := .acquired }
-          some ({ s with slots := upd s.slots slotID sl, locks := upd s.locks l (some lk') }, .stale)
-        else match n.holder with
-          | none =>
-            let sl' := { sl with queue := updNode key (fun n => { n with holder := some l }) sl.queue }
-            let lk' := { lk with acquiredCount := lk.acquiredCount + 1, phase := phaseAfterSuccess lk }
-            some ({ s with slots := upd s.slots slotID sl', locks := upd s.locks l (some lk') }, .success)
-          | some _ =>
-            let sl' := { sl with waiting := sl.waiting ++ [l] }
-            let lk' := { lk with phase := .waiting }
-            some ({ s with slots := upd s.slots slotID sl', locks := upd s.locks l (some lk') }, .locked)
+    | some key, some slotID => some (acquireCore (preRecycle cfg s slotID lk.startTS) l lk key slotID)
     | _, _ => none
 
 /-- one step of `acquire(l)`: the `IsStale` test at its head (only a woken lock can be stale here),
@@ -222,10 +232,6 @@ def releaseSlot (s : State) (l : LockId) : Option (State × Option LockId) :=
               some ({ s with slots := upd s.slots slotID { sl with queue := q, waiting := waiting' },
                              locks := upd (upd s.locks l (some lk')) w (some lkw'), published := pub }, some w)
     | _, _ => none
-
-/-- one iteration of `Latches.recycle` -/
-def recycleSlot (cfg : Cfg) (s : State) (i : Nat) (ts : Nat) : State :=
-  { s with slots := upd s.slots i ((s.slots i).recycle cfg ts) }
 
 /-! ## the loops of the code (method granularity; used by the driver) -/
 
